@@ -343,6 +343,61 @@ def run_sequences(first_idx):
   return {'n': n, 'keys': len(keys), 'viol': viol, 'sample': {'sequence': [[allc[i][1], allc[i][3]] for i in seqs[-1]]} if seqs else None}
 
 
+def run_overlapping():
+  """Two calls in flight at once through ONE serializer sink (as under a pool or balancer: the serializer sits above the connections):
+  call A is written on connection 1, call B on connection 2 before A's reply arrives, then A's reply, then B's.  Every ordered pair of
+  value-returning / void / failing cases of the vsvc interface; each call must yield what it yields alone on a fresh client."""
+  from scales.constants import SinkProperties
+  from scales.dispatch import MessageDispatcher
+  from scales.loadbalancer.zookeeper import Endpoint
+  from scales.message import MethodCallMessage
+  from scales.thrift.sink import SocketTransportSink
+  import gevent
+  VSvc, VBase, T = vsvc()
+  allc = [c for c in cases() if c[0] == 'vsvc' and c[1] != 'fire']
+  seen, sel = set(), []
+  for c in allc:                      # one case per (method, server outcome, value present)
+    k = (c[1], c[3], c[4] is None)
+    if k not in seen:
+      seen.add(k)
+      sel.append(c)
+  viol = []
+  n = 0
+  for ca in sel:
+    for cb in sel:
+      world.reset()
+      ch = Chain(VSvc.Iface, VSvc.Processor)
+      t1 = ch.transport
+      t2 = SocketTransportSink.Builder().CreateSink({SinkProperties.Endpoint: Endpoint('h0', 1000), SinkProperties.Label: 'svc',
+                                                     SinkProperties.ServiceInterface: VSvc.Iface})
+      gevent.spawn(lambda: t2.Open().wait())
+      ch.pump()
+      conn1, conn2 = ch.conn, ch.net.conns[-1]
+      ars = []
+      for case, tr in ((ca, t1), (cb, t2)):
+        ch.top.next_sink = tr
+        ch.handler.outcome, ch.handler.value = case[3], case[4]
+        ars.append(MessageDispatcher.StaticDispatchMessage(ch.top, None, 0, None, MethodCallMessage(VSvc.Iface, case[1], case[2], {})))
+        vloop.run_ready()
+      for conn in (conn1, conn2):
+        if conn.peer.replies:
+          conn.rx += conn.peer.replies.pop(0)
+          conn.wake()
+          vloop.run_ready()
+      vloop.run_ready()
+      n += 1
+      for which, case, ar in (('first', ca, ars[0]), ('second', cb, ars[1])):
+        got, want = observe(ar), expected(case)
+        if got != want:
+          viol.append({'clause': 'C14.overlapping', 'message': 'two calls in flight through one serializer (%s%r then %s%r, replies in the same order): '
+                       'the %s produced %r, expected %r' % (ca[1], ca[2], cb[1], cb[2], which, got, want), 'sig': {'method': case[1]},
+                       'replay': {'overlapping': [[ca[1], ca[3]], [cb[1], cb[3]]]}})
+          break
+      if len(viol) >= 3:
+        return {'n': n, 'keys': n, 'viol': viol, 'sample': None}
+  return {'n': n, 'keys': n, 'viol': viol, 'sample': {'overlapping_pairs': n}}
+
+
 def run_keyword_calls():
   """Arguments passed by keyword (all of them, or the trailing ones), including empty / zero / false values: the server must
   decode exactly the values the caller passed."""
@@ -675,6 +730,7 @@ def main(tier, seed):
     out += explore.pmap('vt.checks.c14', 'run_two_services', [()], pool, seed)
     out += explore.pmap('vt.checks.c14', 'run_deep_inheritance', [()], pool, seed)
     out += explore.pmap('vt.checks.c14', 'run_keyword_calls', [()], pool, seed)
+    out += explore.pmap('vt.checks.c14', 'run_overlapping', [()], pool, seed)
     out += explore.pmap('vt.checks.c14', 'run_timeout_then_call', [()], pool, seed)
     out += explore.pmap('vt.checks.c14', 'run_readall', [(7 if tier == 'quick' else 9, 3 if tier == 'quick' else 4)], pool, seed)
   finally:
